@@ -118,6 +118,9 @@ func checkQuantifier(r *Run, prog *Program, a *Anchors, pfx string) {
 			o, oc := o, oc
 			ps := NewPathSim(prog)
 			ps.maxVisits = 3
+			ps.Inline = func(c *ssa.Function) bool {
+				return prog.InModule(c) && c != a.Dispatch && c != a.GetValue && c != wlv && c != a.GetOpts && c != a.MatchEval && !strings.HasPrefix(c.Name(), "With")
+			}
 			ps.Seed = func(st *pstate) { st.eqc[opKey] = constKey(oc) }
 			errs := map[string]bool{}
 			ps.Model = func(ev *Event) *Sym {
@@ -535,11 +538,11 @@ func checkScan(r *Run, prog *Program, a *Anchors, pfx string) {
 	var recs []cmpRec
 	ps.OnInstr = func(f *ssa.Function, st *pstate, ins ssa.Instruction) {
 		bo, ok := ins.(*ssa.BinOp)
-		if !ok || bo.Op != token.EQL || f != fn {
+		if !ok || (bo.Op != token.EQL && bo.Op != token.NEQ) || f != fn {
 			return
 		}
 		x, y := ps.sym(st, bo.X), ps.sym(st, bo.Y)
-		isName := func(s *Sym) bool { return s.K == sField && s.Str == "name" }
+		isName := func(s *Sym) bool { return isFieldOfValue(s, "name") }
 		if isName(x) {
 			x, y = y, x
 		}
@@ -576,7 +579,7 @@ func checkScan(r *Run, prog *Program, a *Anchors, pfx string) {
 			continue
 		}
 		nsub++
-		if base != nil && base.IsNil() && len(ap) == 2 && ap[0].Args[1].K == sField && ap[0].Args[1].Str == "path" && ap[1].Args[1].K == sSlice && strings.HasPrefix(ap[1].Args[1].Str, "const(1):") {
+		if base != nil && base.IsNil() && len(ap) == 2 && isFieldOfValue(ap[0].Args[1], "path") && ap[1].Args[1].K == sSlice && strings.HasPrefix(ap[1].Args[1].Str, "const(1):") {
 			okSub++
 		}
 	}
@@ -591,7 +594,7 @@ func checkScan(r *Run, prog *Program, a *Anchors, pfx string) {
 		val, present, err := sm.Results[0], sm.Results[1], sm.Results[2]
 		pv, _ := present.BoolConst()
 		if pv {
-			r.Check(pfx+".scan", "concrete-binding-value", prog.pos(sm.Ret.Pos()), val.K == sField && val.Str == "value" && err.IsNil(), "a key/index binding referenced alone must yield exactly the bound value; got "+shortKey(val))
+			r.Check(pfx+".scan", "concrete-binding-value", prog.pos(sm.Ret.Pos()), isFieldOfValue(val, "value") && err.IsNil(), "a key/index binding referenced alone must yield exactly the bound value; got "+shortKey(val))
 		} else {
 			r.Check(pfx+".scan", "concrete-binding-with-subpath", prog.pos(sm.Ret.Pos()), errClass(sm, err) == "nonnil", "selecting inside a key/index binding must be an error")
 		}
